@@ -66,6 +66,7 @@ fn main() {
         "frame" => streams::codec::frame_stream(seed, cases, &mut ex),
         "limit" => streams::codec::limit_stream(seed, cases, &mut ex),
         "chunks" => streams::codec::chunks_stream(seed, cases, arg(&args, "--cutlen", 200), &mut ex),
+        "pack" => streams::codec::pack_stream(seed, cases, &mut ex),
         "noncanon" => streams::codec::noncanon_stream(seed, cases, &mut ex),
         "shortframes" => streams::codec::shortframes_stream(maxlen, &mut ex),
         "prefix" => streams::cidl::prefix_stream(seed, cases, maxlen, &mut ex),
